@@ -33,6 +33,7 @@ class FnResult(object):
         self.inlined = []
         self.contracts_used = []
         self.externs_used = []
+        self.ghost_assumptions = []
         self.gen_s = 0.0
 
 
@@ -205,10 +206,19 @@ def _verify(repo, ctab, spec, res):
             ctx = SpecCtx(ps, old=entry, entry=entry)
             _bind_defs(E, spec, ctx, entry)
             for rs, w in zip(matching, whens):
-                for (en, eexpr) in rs.ensures:
+                for (en, eexpr, opts) in rs.ensures:
                     f = E.speceval.formula(eexpr, ctx)
                     s.assume(*ctx.side)
-                    E.obligations.append(_mk(spec, 'raises/%s/%s' % (rs.exc, en), s, z3.Implies(w, f), trace=s.trace, entry=entry))
+                    cases = (opts or {}).get('cases')
+                    if cases:
+                        preds = []
+                        for cn, cexpr in cases.items():
+                            cp = E.speceval.formula(cexpr, ctx)
+                            preds.append(cp)
+                            E.obligations.append(_mk(spec, 'raises/%s/%s[case=%s]' % (rs.exc, en, cn), s, z3.Implies(z3.And(w, cp), f), trace=s.trace, entry=entry))
+                        E.obligations.append(_mk(spec, 'raises/%s/%s[otherwise]' % (rs.exc, en), s, z3.Implies(z3.And(w, z3.Not(z3.Or(*preds))), f), trace=s.trace, entry=entry))
+                    else:
+                        E.obligations.append(_mk(spec, 'raises/%s/%s' % (rs.exc, en), s, z3.Implies(w, f), trace=s.trace, entry=entry))
     # watch terms (entry-state expressions whose model values seed the native replay)
     if spec.watch:
         cache = {}
@@ -236,6 +246,7 @@ def _verify(repo, ctab, spec, res):
     res.inlined = sorted(E.inlined)
     res.contracts_used = sorted(E.contracts_used)
     res.externs_used = sorted(E.externs_used)
+    res.ghost_assumptions = sorted(set(E.assumptions))
 
 
 def _bind_defs(E, spec, ctx, entry):
